@@ -530,7 +530,7 @@ def unit_backward_any_nt(kind, pattern, ts_grad):
     from pydv.seq import SymSlots
     from xitorch._core.pure_function import get_pure_function
     bw = iv._SolveIVP.__dict__["backward"].__func__
-    rw = loopcut.rewrite(bw, cut={0}, lift_lists={"grad_ts"})
+    rw = loopcut.rewrite(bw, cut={0}, lift_lists={"*none-lists*"})
     lid = list(rw.loops)[0]
 
     def run():
@@ -684,20 +684,26 @@ def unit_backward_any_nt(kind, pattern, ts_grad):
             head["zero_iterations"] = z
             return z
 
+        def by_role(loop, role):
+            for nm, r in loop.roles.items():
+                if r == role:
+                    return nm
+            raise OutOfSubset("no loop-carried variable holds the %s at loop entry" % role)
+
         def def_tfi(hv, entry, loop):
             if no_iteration(loop):
-                return entry["t_flip_idx"]
+                return entry[by_role(loop, "t_flip_idx")]
             return core.SInt(-1 - i_of(loop))
 
         def def_states(hv, entry, loop):
             if no_iteration(loop):
-                return entry["states"]
+                return entry[by_role(loop, "states")]
             head["fin"] = fresh_finals("prev")
             return state_from(k_of(loop), head["fin"])
 
         def def_grad_ts(hv, entry, loop):
-            if entry["grad_ts"] is None or no_iteration(loop):
-                return entry["grad_ts"]
+            if entry[by_role(loop, "grad_ts")] is None or no_iteration(loop):
+                return entry[by_role(loop, "grad_ts")]
             k = k_of(loop)
 
             def base(e):
@@ -706,7 +712,20 @@ def unit_backward_any_nt(kind, pattern, ts_grad):
                 return None
             head["slots_base"] = base
             return SymSlots(nt, base)
-        stt.user_define = {"t_flip_idx": def_tfi, "states": def_states, "grad_ts": def_grad_ts}
+        def roles(entry, bound):
+            """the loop-carried variables by what they hold at loop entry (not by what the code calls them)"""
+            out = {}
+            for nm in bound:
+                v = entry[nm]
+                if isinstance(v, list) and len(v) == 3 + ntens and all(isinstance(x, st.Tensor) for x in v):
+                    out[nm] = "states"
+                elif isinstance(v, int) and not isinstance(v, bool) and v == -1:
+                    out[nm] = "t_flip_idx"
+                elif isinstance(v, SymSlots) or (v is None and not ts_grad):
+                    out[nm] = "grad_ts"
+            return out
+        stt.role_classifier = roles
+        stt.user_define = {"role:t_flip_idx": def_tfi, "role:states": def_states, "role:grad_ts": def_grad_ts}
         stt.user_havoc = lambda env, entry, loop: None
 
         def inv(env, entry):
@@ -776,7 +795,7 @@ def unit_backward_any_nt(kind, pattern, ts_grad):
                     kit.prove_vec(c, "%s:pi_continues_from_the_previous_segment" % tagp, comps[3 + j], prev[3 + j].v)
             # (3) the invariant is re-established: the state the next segment starts from
             fin = call["finals"]
-            new = env["states"]
+            new = env[by_role(loop, "states")]
             c.check("%s:next_state_has_3_plus_m_slots" % tagp, isinstance(new, list) and len(new) == 3 + ntens)
             if not (isinstance(new, list) and len(new) == 3 + ntens):
                 return []
@@ -794,10 +813,10 @@ def unit_backward_any_nt(kind, pattern, ts_grad):
                     if tens_kinds[j] == "T":
                         c.check("%s:recorded_backward:next_state_is_connected_to_the_tensor_parameters" % tagp,
                                 kit.reaches(new[1], tens_params[j]) and kit.reaches(new[3 + j], tens_params[j]))
-            tfi = env["t_flip_idx"]
+            tfi = env[by_role(loop, "t_flip_idx")]
             c.prove("%s:t_flip_idx_is_minus_1_minus_number_of_segments_done" % tagp,
                     (tfi.e if isinstance(tfi, core.SInt) else z3.IntVal(tfi)) == -1 - (loop._target.e + 1))
-            gts = env["grad_ts"]
+            gts = env[by_role(loop, "grad_ts")]
             if not ts_grad:
                 c.check("%s:grad_ts_stays_None_when_ts_does_not_require_grad" % tagp, gts is None)
             else:
